@@ -342,7 +342,7 @@ def late_blob_check(ctx):
     grace period is over - the repository stays in the range of the passes because of that blob"""
     binp = api_binary(ctx)
     cases = []
-    n = 3 if ctx.tier == "quick" else 9
+    n = 4 if ctx.tier == "quick" else 12
     for i in range(n):
         for store in ("mem", "dir"):
             cfg = b"{}"
@@ -351,9 +351,14 @@ def late_blob_check(ctx):
             gp = lambda secs: dict(kind="gcpass", impl=dict(op="gcpass", secs=secs, partial=True), model="(skip)")
             steps = [upload_post("a", digest=dg("sha256", cfg), body=cfg), manifest_put("a", "t1", m, ctype=MT_OCI_M),
                      special("sleep", secs=1.1)]
-            if i % 3 == 0:
+            if i % 4 == 3:
+                # pushed, and pushed again (acknowledged: the content counts as uploaded then) just before its grace period ends:
+                # the passes have to keep visiting the repository until the second grace period is over
+                steps += [upload_post("a", digest=dg("sha256", X), body=X), special("sleep", secs=0.27), upload_post("a", digest=dg("sha256", X), body=X),
+                          special("sleep", secs=0.27), upload_post("a", digest=dg("sha256", X), body=X)]
+            elif i % 4 == 0:
                 steps.append(upload_post("a", digest=dg("sha256", X), body=X))
-            elif i % 3 == 1:
+            elif i % 4 == 1:
                 steps += [upload_post("a"), upload_put("a", "$SID%d$" % len(steps), None, dg("sha256", X), state_token(0), X)]
             else:
                 # a slow upload: the session is opened, the content completed more than a pass and a grace period later, and the
